@@ -23,6 +23,7 @@ from ..runner import Acc  # noqa: E402
 from ..sweep import exc_fingerprint, graph_case, rotate, unit_graphs, units_for  # noqa: E402
 
 PROP = "C12"
+D2_LIMIT = 130     # d=1 runs per instance up to which all pairs of deviations are explored too
 
 
 def dump_graph(g):
@@ -103,7 +104,15 @@ def _work(args):
     if kind == "graphs":
         for fam, g in unit_graphs(payload):
             acc.counters[f"graphs[{fam}]"] += 1
-            explore(dump_graph, g, bound, acc, graph_case(g, fam, "JLB", kind="graph"), "restructure")
+            r0 = acc.counters["runs"]
+            explore(dump_graph, g, 1, acc, graph_case(g, fam, "JLB", kind="graph"), "restructure")
+            if bound >= 2:
+                # two simultaneous deviations where the instance is small enough (quadratic in the d=1 run count)
+                if acc.counters["runs"] - r0 <= D2_LIMIT:
+                    explore(dump_graph, g, 2, acc, graph_case(g, fam, "JLB", kind="graph"), "restructure")
+                    acc.counters["instances_with_2_deviations"] += 1
+                else:
+                    acc.counters["instances_with_1_deviation_only(too many choice points)"] += 1
             if len(acc.samples) < 2 and len(g) >= 4:
                 acc.samples.append({"family": fam, "graph": [list(r) for r in g], "deviation_bound": bound})
     else:
@@ -159,7 +168,9 @@ def run(tier: str, seed: int):
         units += [("graphs", ("E", 5, p), 1) for _, p in shards(5, 3)]
         from ..sweep import frontend_graphs
         units += [("graphs", u, 1) for u in units_for({"LISTS": {"D(S1,1)": deviation_closure(frontend_graphs(1), 1)}})]
-        s2 = list(skeleton_sources(2, "marked")) + list(skeleton_sources(1, "bare"))
+        from ..progs import chain_sources
+        s2 = (list(skeleton_sources(1, "marked")) + list(skeleton_sources(1, "bare")) + list(chain_sources(2, "marked"))
+              + list(chain_sources(2, "bare")) + list(skeleton_sources(2, "marked"))[62::4])
         units += [("progs", s2[i:i + 40], 1) for i in range(0, len(s2), 40)]
     acc = Acc()
     for r in shard_map(_work, rotate(units, seed)):
@@ -186,7 +197,7 @@ def run(tier: str, seed: int):
                    "oracle: exact canonical dump (names, nesting, target order, tables, insertion order, name-generator counters) and regenerated "
                    "source text equal to the default-order run; a state is one complete run, a transition one choice point; traces = real "
                    "PYTHONHASHSEED sub-process runs of the un-instrumented library whose corpus digest must equal the instrumented default run",
-           "bounds": {"deviation_bound": "1 (E<=4 graphs, S(1) programs)" if tier == "quick" else "2 on E(<=4), 1 on E(5), D(S1,1), S(2) programs",
+           "bounds": {"deviation_bound": "1 (E<=4 graphs, S(1) programs)" if tier == "quick" else "2 on the E(<=4) graphs with <= 130 single-deviation runs, 1 on all of E(<=5), D(S1,1), S(1)+CH(2)+quarter of S(2) programs",
                       "real_seeds": nseeds},
            "rewritten_modules": setorder.rewritten_modules(),
            "real_seed_digests": {d[:16]: len(v) for d, v in digests.items()}, "instrumented_default_digest": own[:16]}
